@@ -353,7 +353,7 @@ def rust_libdir():
     return _LIBDIR
 
 
-def run_e1(exe, mode, tier, slices=NCPU, timeout=3600):
+def run_e1(exe, mode, tier, slices=NCPU, timeout=3600, dump=None):
     import tempfile
     tmpdir = os.path.join(BUILD, "e1-out")
     os.makedirs(tmpdir, exist_ok=True)
@@ -362,6 +362,8 @@ def run_e1(exe, mode, tier, slices=NCPU, timeout=3600):
         out = os.path.join(tmpdir, f"{mode}.{os.getpid()}.{i}.json")
         e = dict(os.environ)
         e["LD_LIBRARY_PATH"] = rust_libdir() + ":" + e.get("LD_LIBRARY_PATH", "")
+        if dump:
+            e["TSRS_E1_DUMP"] = dump
         e.update({"TSRS_E1_MODE": mode, "TSRS_E1_SLICE": f"{i}/{slices}", "TSRS_E1_OUT": out, "TSRS_E1_TIER": tier})
         try:
             p = subprocess.run([exe, "verif::verif_main", "--exact", "--nocapture", "--test-threads=1"],
